@@ -296,6 +296,28 @@ func runC03(c *Ctx) error {
 			steps := make([]string, 0, len(h))
 			verd := []bool{}
 			for _, q := range h {
+				// a key-setup attempt that FAILS (low-order X25519 point, unsupported exchange type,
+				// wrong key length, completion without an exchange in progress) leaves keys and
+				// replay windows as they are: the model takes no step for it
+				if c.Rng.IntN(8) == 0 {
+					enc := sba.Encryption()
+					var kerr error
+					kind := c.Rng.IntN(4)
+					switch kind {
+					case 0:
+						_, _, kerr = enc.InitKeyServer(make([]byte, 32), "ECDH-X25519/BLAKE3")
+					case 1:
+						_, _, kerr = enc.InitKeyServer(make([]byte, 32), "nope")
+					case 2:
+						_, _, kerr = enc.InitKeyServer([]byte{1, 2, 3}, "ECDH-X25519/BLAKE3")
+					default:
+						kerr = enc.InitKeyClientComplete(make([]byte, 32), "ECDH-X25519/BLAKE3")
+					}
+					c.Count(fmt.Sprintf("failed-key-setup:%d", kind))
+					if kerr == nil {
+						return fmt.Errorf("harness: key setup attempt %d meant to fail succeeded", kind)
+					}
+				}
 				data := append([]byte(nil), wire[q]...)
 				corrupt := c.Rng.IntN(6) == 0
 				if corrupt {
